@@ -30,11 +30,11 @@ WHAT = {
     "V4": "run_model's result is truthy exactly when something went wrong (feature failed, interrupt, abort, hook failure, new undefined steps, cleanup error)",
     "V5": "run_behave returns 1 exactly when runner.run() is truthy or an exception was reported; main passes it on",
     "V6": "a raising hook increments hook_failures; before_all/after_all failures abort the run",
-    "V7": "abort wiring: Context.abort sets the root attribute that ModelRunner.aborted reads",
+    "V7": "verdict wiring: Context.abort sets the root attribute that ModelRunner.aborted reads; runner.undefined_steps hands out the very list run_model measures",
     "H1": "run_hook contains every Exception, marks exactly the element concerned, does nothing in dry-run",
     "H4": "before_all first, after_all after the feature loop on every path, no feature after a failed before_all",
     "H5": "a failing hook writes only the concerned element's failure fields",
-    "STM": "after a failing feature with --stop or an aborted run no further feature is run",
+    "STM": "after a failing feature with --stop or an aborted run no further feature is run - and only then is a feature passed over",
     "Y4": "every feature is reported to every reporter exactly once, run or not; end() once",
     "F4": "uri() before each run feature; every formatter closed exactly once after the loop",
     "X8": "root cleanups run after after_all, inside try/except, and a failure makes the run fail",
@@ -105,6 +105,8 @@ def check_run_model(chk, ix, rules, tier="quick", mutate=None):
         if "STM" in rules:
             if f["stop_err"]:
                 chk.fail(_f("STM", fi, RM, ex, "feature-after-stop", f["stop_err"]))
+            elif f.get("skip_err"):
+                chk.fail(_f("STM", fi, RM, ex, "feature-passed-over", f["skip_err"] + " (false green)"))
             else:
                 chk.ok("STM", None, nontrivial_key=(repr(f["n_run"]), f["child_failed"], f["aborted"] is True))
         if "Y4" in rules:
@@ -395,3 +397,36 @@ def check_abort_wiring(chk, ix):
         chk.ok("V7", "ModelRunner.abort delegates to context.abort", nontrivial_key="runner.abort")
     else:
         fail(ra or get, "ModelRunner.abort does not call context.abort", "ModelRunner.abort() does not delegate to Context.abort()")
+    # 5. the list model code appends undefined steps to (runner.undefined_steps) is the one run_model measures
+    us = mr.methods.get("undefined_steps")
+    rm = ix.func(RM)
+    chk.instance("V7")
+    if us is None:
+        # a plain attribute: run_model must read the same attribute
+        ok = any(isinstance(n, ast.Attribute) and n.attr == "undefined_steps" for n in ast.walk(rm.node))
+        if ok:
+            chk.ok("V7", "runner.undefined_steps is a plain attribute read by run_model", nontrivial_key="undefined attr")
+        else:
+            fail(rm, "run_model does not read runner.undefined_steps", "run_model does not look at runner.undefined_steps")
+    else:
+        it = Interp(ix, name="ModelRunner.undefined_steps")
+        st = State()
+        st.frames = []
+        store = st.alloc(HObj("list", kind="list", items=[], label="stored undefined steps"))
+        fields = {}
+        for n in ast.walk(mr.methods["__init__"].node):
+            if isinstance(n, ast.Assign) and isinstance(n.targets[0], ast.Attribute) and unparse(n.targets[0].value) == "self" \
+                    and isinstance(n.value, ast.List) and not n.value.elts and "undefined" in n.targets[0].attr:
+                fields[n.targets[0].attr] = store
+        if not fields:
+            raise AnalysisError("anchor missing: ModelRunner.__init__ creates no undefined-steps list")
+        me = st.alloc(HObj(mr, fields, label="runner"))
+        outs = it.call_function(st, us, [], {}, None, self_val=me)
+        vals = [v for (_, k, v) in outs if k == "val"]
+        reads = [unparse(n) for n in ast.walk(rm.node) if isinstance(n, ast.Attribute) and "undefined_steps" in n.attr]
+        if len(vals) == 1 and isinstance(vals[0], Ref) and vals[0].oid == store.oid and reads:
+            chk.ok("V7", {"runner.undefined_steps": "returns the stored list itself", "run_model reads": sorted(set(reads))}, nontrivial_key="undefined list")
+        else:
+            fail(us, "undefined_steps returns %r" % (vals,), "runner.undefined_steps does not hand out the stored list itself (%r): steps that "
+                 "model code appends through it are lost and the 'new undefined steps' part of the verdict is never true (false green "
+                 "in dry-run)" % (vals,))
